@@ -4,13 +4,14 @@ import json
 from ..coqeval import Raw, Nat, term, eval_checks
 from .. import util
 
-RULE = ("instances: 1-9 reads x 1-8 columns (>= 4 columns in most cases so that k=floor(sqrt(n))>1 and the "
+RULE = ("corpus (5 hand-written instances incl. tests/test_pedigreephasing.py::test_phase_trio1, an empty read set, columns "
+        "without reads, a Mendelian conflict) + generated instances: 1-9 reads x 1-8 columns (>= 4 columns in most cases so that k=floor(sqrt(n))>1 and the "
         "recompute-on-backtrace branch runs), alleles 0/1/gap with interior gaps and nested/interleaved spans, weights 0-6 "
-        "with ties, pedigrees: single individual / two unrelated individuals / trio / quartet (individual order and numeric "
-        "sample ids permuted), trusted genotypes (random, mostly Mendelian-consistent) or phred triples (distrust mode, with "
+        "with ties, pedigrees: single individual / two unrelated individuals / trio / quartet, a few three-generation pedigrees "
+        "and pairs of unrelated trios (individual order, trio order and numeric sample ids permuted), trusted genotypes (random, mostly Mendelian-consistent) or phred triples (distrust mode, with "
         "arbitrary ignored genotypes), recombination costs 0-8 incl. zeros, explicit `positions` incl. columns no read covers "
         "and interior read variants at positions that are not phased; plus a malformed stream of trusted-genotype instances "
-        "with a Mendelian conflict (must raise). Coverage is kept <= 6 (quartets <= 5). A case is non-trivial if it has >= 2 "
+        "with a Mendelian conflict (must raise). Generated coverage is kept <= 6 (trios <= 5, quartets <= 4, deeper pedigrees <= 3). A case is non-trivial if it has >= 2 "
         "columns, >= 2 reads and some column with coverage >= 2; distinct = distinct instance.")
 TRUSTED = [
     "modelled, not verified: Gray-code enumeration with incremental cost update (update_partitioning; the model "
@@ -356,6 +357,12 @@ def gen_pedigree(rng, kind):
         tr = [[p[0], p[1], p[2]], [p[2], p[3], p[4]]] if rng.random() < 0.5 else [[p[0], p[1], p[2]], [p[3], p[2], p[4]]]
         rng.shuffle(tr)
         return 5, tr
+    if kind == "twotrios":      # two unrelated trios
+        p = [0, 1, 2, 3, 4, 5]
+        rng.shuffle(p)
+        tr = [[p[0], p[1], p[2]], [p[3], p[4], p[5]]]
+        rng.shuffle(tr)
+        return 6, tr
     raise ValueError(kind)
 
 
@@ -386,11 +393,11 @@ def gen_instance(rng, kind=None, mode=None, n=None, conflict=False, maxcov=None,
     if n is None:
         n = rng.choice([1, 2, 3, 4, 4, 5, 5, 6, 7, 8])
     if maxcov is None:
-        maxcov = {"single": 6, "two": 6, "trio": 5, "quartet": 4, "threegen": 3}[kind]
+        maxcov = {"single": 6, "two": 6, "trio": 5, "quartet": 4, "threegen": 3, "twotrios": 3}[kind]
         maxcov = rng.randint(2, maxcov)
-    if kind in ("quartet", "threegen"):
-        n = min(n, 6)
-        maxreads = min(maxreads, 6)
+    if kind in ("quartet", "threegen", "twotrios"):
+        n = min(n, 6 if kind == "quartet" else 5)
+        maxreads = min(maxreads, 6 if kind == "quartet" else 5)
     step = rng.choice([1, 10, 7])
     positions, p = [], rng.randint(0, 50)
     for _ in range(n):
@@ -658,9 +665,13 @@ def run(ctx):
         insts.append(gen_instance(rng))
     for _ in range(ctx.n(30, 300)):      # malformed stream: trusted genotypes with a Mendelian conflict
         insts.append(gen_instance(rng, kind=rng.choice(["trio", "trio", "quartet"]), mode="gt", conflict=True))
+    for _ in range(ctx.n(10, 120)):      # deeper / wider pedigrees: three generations, two unrelated trios
+        insts.append(gen_instance(rng, kind=rng.choice(["threegen", "twotrios"])))
     if not ctx.quick:
-        insts += exhaustive_small()
-        insts += [gen_instance(rng, kind="threegen") for _ in range(60)]
+        ex = exhaustive_small()
+        ctx.extra["exhaustive_spaces"] = ("all 3x3 and 2x4 unit-weight gap-free matrices of one heterozygous individual (%d instances "
+                                          "incl. a quarter of them re-read as a distrust-mode trio)" % len(ex))
+        insts += ex
     results, failing = check_cases(ctx, insts, "generated")
     for inst, res in list(zip(insts, results))[:3] + list(zip(insts, results))[-2:]:
         ctx.sample({"instance": inst, "impl": {k: v for k, v in res.items() if k != "sr"}})
